@@ -8,7 +8,7 @@ from ._water import scenario_facts
 PID = "C06"
 LEVEL = "model_checking"
 WITNESSES = ["harvest", "harvest_after_death", "multi_season_summary", "season_with_irrigation", "seasonal_cap_binding",
-             "season_cut_by_end_date", "pre_irrigation_day", "wpy_reduced_gain_day"]
+             "season_cut_by_end_date", "pre_irrigation_day", "wpy_reduced_gain_day", "et0_below_floor_day"]
 NONTRIVIAL = ["harvest_after_death", "multi_season_summary", "seasonal_cap_binding", "season_cut_by_end_date",
               "pre_irrigation_day", "wpy_reduced_gain_day", "season_with_irrigation"]
 
@@ -37,6 +37,13 @@ def scenarios(tier, seed=0):
                         iwc = "WP" if irr == "net80" else "FC"
                         c = A._b(crop=ck, irr=irr, win=win, off=off, word=word, iwc=iwc, soil="Sand" if word == "dry" else "SandyLoam")
                         yield {"kind": "config", "config": c}
+    # in-season days with reference ET below the 0.1 mm floor of prepare_weather (user-built weather tables)
+    for ck in scaled[:4]:
+        L = A.crop_length_days(A.CROPS[ck])
+        for irr in ("none", "smt"):
+            c = A._b(crop=ck, irr=irr, win="w1s", word="normal")
+            c["dev"] = [[d, "Z"] for d in range(L // 3, L // 3 + 3)] + [[L // 2 + 2, "Z"], [L - 4, "L"]]
+            yield {"kind": "config", "config": c}
     # a season cut by the end date: window ends mid-season of the last scheduled season
     for ck in scaled[:4]:
         c = A._b(crop=ck, irr="smt", win="w2", word="normal")
